@@ -45,6 +45,8 @@ const (
 	c30ModeNoSettle = 32 // Close immediately, without the settle delay
 	c30ModeLite     = 64 // local agent is ICE lite
 	c30ModeNoAnswer = 128 // accepted remote offers are not answered (the next step meets have-remote-offer)
+	c30ModeVideoTrk = 256 // only a local video track is added (single-section offers)
+	c30ModeUndeclNA = 512 // SettingEngine.SetHandleUndeclaredSSRCWithoutAnswer(true)
 )
 
 var (
@@ -103,6 +105,7 @@ func c30NewPC(sem, mode int) (*webrtc.PeerConnection, error) {
 	se := loopbackSettings()
 	se.SetICEMulticastDNSMode(ice.MulticastDNSModeDisabled)
 	se.SetLite(mode&c30ModeLite != 0)
+	se.SetHandleUndeclaredSSRCWithoutAnswer(mode&c30ModeUndeclNA != 0)
 	api := webrtc.NewAPI(webrtc.WithMediaEngine(me), webrtc.WithSettingEngine(se))
 	sems := []webrtc.SDPSemantics{
 		webrtc.SDPSemanticsUnifiedPlan, webrtc.SDPSemanticsPlanB, webrtc.SDPSemanticsUnifiedPlanWithFallback,
@@ -118,6 +121,11 @@ func c30NewPC(sem, mode int) (*webrtc.PeerConnection, error) {
 		if ta, err := webrtc.NewTrackLocalStaticSample(opus.RTPCodecCapability, "audioL", "streamL"); err == nil {
 			_, _ = pc.AddTrack(ta)
 		}
+		if tv, err := webrtc.NewTrackLocalStaticSample(vp8.RTPCodecCapability, "videoL", "streamL"); err == nil {
+			_, _ = pc.AddTrack(tv)
+		}
+	}
+	if mode&c30ModeVideoTrk != 0 {
 		if tv, err := webrtc.NewTrackLocalStaticSample(vp8.RTPCodecCapability, "videoL", "streamL"); err == nil {
 			_, _ = pc.AddTrack(tv)
 		}
@@ -565,7 +573,13 @@ func init() {
 			"packets (declared and unknown SSRCs, unknown payload types, mid/rid/rsid extensions, padding, short RTX " +
 			"payloads) written on the offerer's SRTP/SRTCP sessions while the answerer reads every track and receiver it " +
 			"is handed (handleIncomingSSRC, handleUndeclaredSSRC, simulcast probing, RTX repair reader in background " +
-			"goroutines). Non-trivial: s ops whose description was accepted by SetRemoteDescription, all h / rp / p ops.",
+			"goroutines); variants 4–9 are the two-stage undeclared-SSRC scenario: a single-section offer without " +
+			"a=ssrc / a=rid whose a=msid has 2 / 1 / 0 / 3 tokens, a trailing space or is absent, then RTP on the " +
+			"undeclared SSRC; every variant may carry extra weird msid / ssrc / rid / simulcast / extmap / rtcp-fb lines " +
+			"inserted into the audio or video section. h uin ops run handleIncomingSSRC itself (declared-SSRC test, " +
+			"single-section shortcut, payload-type lookup, mid-extension fallback through findMediaSectionByPayloadType, " +
+			"handleUndeclaredSSRC) on parsed mutated descriptions with a packet delivered through a real SRTP session " +
+			"pair, differentially against the model. Non-trivial: s ops whose description was accepted by SetRemoteDescription, all h / rp / p ops.",
 		Gen:     c30Gen,
 		Exec:    c30Exec,
 		Class:   c30Class,
